@@ -252,7 +252,7 @@ func c02Gen(r *Rand, tier string, i int) Scenario {
 		sc.Stalls = []StallSpec{{Name: "consumer.single", Site: siteStdoutLock, Suffix: "/lock", From: h, To: h + 1, DurMs: PickOf(r, 2900, 3100, 3100, 6100)}}
 		ncmd = 1
 	}
-	if (tier == "thorough" && r.Bool(0.06)) || (tier != "thorough" && r.Bool(0.015)) {
+	if (tier == "thorough" && r.Bool(0.06)) || (tier != "thorough" && r.Bool(0.05)) {
 		// big output over SSH: about 2.7 MB, more than the 2 MiB channel window,
 		// read against a client that pauses for seconds; the server's writes
 		// block, its queues fill, flush and the close handshake run under
@@ -265,8 +265,15 @@ func c02Gen(r *Rand, tier string, i int) Scenario {
 		if sc.Plain {
 			per = 2
 		}
-		h := (L - PickOf(r, 1, 50, 210, 400, 680, 700, 705, 720)) * per
-		sc.Stalls = []StallSpec{{Name: "consumer.single", Site: siteStdoutLock, Suffix: "/lock", From: h, To: h + 1, DurMs: PickOf(r, 1000, 3100, 6100, 12000)}}
+		// offsets around 697 lines (2 MiB / line size): the stall begins when what is
+		// left exceeds the channel window by about one message
+		off := PickOf(r, 1, 50, 210, 400, 680, 720, 0, 0, 0, 0, 0, 0)
+		dur := PickOf(r, 1000, 3100, 6100, 12000)
+		if off == 0 {
+			off, dur = 690+r.Intn(16), PickOf(r, 5100, 6100, 12000) // longer than the 5 s close-handshake timeout
+		}
+		h := (L - off) * per
+		sc.Stalls = []StallSpec{{Name: "consumer.single", Site: siteStdoutLock, Suffix: "/lock", From: h, To: h + 1, DurMs: dur}}
 		if r.Bool(0.5) {
 			sc.Stalls = append(sc.Stalls, StallSpec{Name: "consumer.single", Site: siteStdoutLock, Suffix: "/lock", From: 20 * per, To: 20*per + 1, DurMs: PickOf(r, 3100, 6100)})
 		}
